@@ -1,7 +1,7 @@
 (* C06 — property theorems only.  Each is closed by `exact` of a lemma of C06_Proofs*.v. *)
 From Coq Require Import List NArith Bool Arith.
 From Dae.gen Require Import C06_Extracted.
-From Dae Require Import C06_Spec C06_Model C06_Async C06_Session C06_Clock C06_Key C06_HttpVar C06_Proofs.
+From Dae Require Import C06_Spec C06_Model C06_Async C06_Session C06_Clock C06_Key C06_HttpVar C06_Decrypt C06_Proofs.
 Import ListNotations.
 Open Scope N_scope.
 
@@ -304,6 +304,27 @@ Example C06_key_fingerprint_nonvacuous :
   /\ key_dcid d = Ok (Some [1; 2; 3; 4; 5; 6; 7; 8])
   /\ fingerprint (firstn 14 d) = Ok None /\ key_dcid (firstn 14 d) = Ok (Some [1; 2; 3; 4; 5; 6; 7; 8]).
 Proof. exact C06_key_fingerprint_nonvacuous_proof. Qed.
+
+(* ---------------------------------------------------------------- DecryptQuic_: arithmetic around the oracle *)
+(* For every buffer length, packet-number offset, packet end (pnOffset + the header's Length, whatever it
+   says) and whatever packet-number length 1..4 header protection reveals, under the preconditions
+   sniffQuicBlock establishes: with the sample guard extracted from the source every slice bound and
+   the make() size stay within the buffer - the call returns an error or goes through, it never panics. *)
+Theorem C06_decrypt_arith_no_oob :
+  forall len pnoff blockend pnlen : N,
+    1 <= pnoff -> pnoff + max_pn_len <= len -> blockend <= len -> 1 <= pnlen <= max_pn_len ->
+    decrypt_arith quic_sample_guard_on_block len pnoff blockend pnlen <> Err Oob.
+Proof. exact C06_decrypt_arith_no_oob_proof. Qed.
+Print Assumptions C06_decrypt_arith_no_oob.
+
+(* A guard that only asks the BUFFER to hold the sample lets a header whose Length is 0 through when 40 more
+   bytes follow: payload = buf[pnOffset+pnLen : pnOffset] has its bounds reversed. *)
+Theorem C06_decrypt_buffer_guard_refuted :
+  exists len pnoff blockend pnlen : N,
+    1 <= pnoff /\ pnoff + max_pn_len <= len /\ blockend <= len /\ 1 <= pnlen <= max_pn_len
+    /\ decrypt_arith false len pnoff blockend pnlen = Err Oob.
+Proof. exact C06_decrypt_buffer_guard_refuted_proof. Qed.
+Print Assumptions C06_decrypt_buffer_guard_refuted.
 
 (* ---------------------------------------------------------------- non-vacuity *)
 Example C06_nonvacuous :
